@@ -12,7 +12,7 @@
       is built with the *current* `reference`, i.e. it inherits the previous one (`fetchRef`);
       on the final-pass `LOOP_BREAK` the substituted `LOOP_END` event does not touch `reference`;
       when an `END` pops a return frame, `reference` becomes that of the calling `JUMP` event
-      (`reference = track->get_event(position - 1).reference`, fix 152f2d8 — before it the
+      (`reference = track->get_event(position - 1).reference`, fix 51fb87b — before it the
       reference stayed inside the subroutine, so an error at the end of the calling track pointed
       at the subroutine's last command: `returnRef`).
     * `Basic_Player::error(msg)` = `InputError(reference, msg)`: every error of the ref-less models
@@ -326,7 +326,7 @@ def addInstruments (tags : List (List UInt8 × List (List UInt8))) : List (List 
     | none => if isPitchKey k then .unmodelled "pitch-envelope" else addInstruments tags ks d
     | some id =>
       match (tags.lookup k).getD [] with
-      | [] => .unmodelled "empty-instrument-tag"
+      | [] => .err (mdsdrv_msg_no_ins_type.1 ++ toString id ++ mdsdrv_msg_no_ins_type.2)   -- `tag.empty()` (696884e)
       | ty :: params =>
         let t := lowerStr (bytesStr ty)
         let put (tyv : Nat) : DataInfo :=
